@@ -29,10 +29,12 @@ if HARNESS not in sys.path:
 
 import common                                  # noqa: E402
 import pyfacts                                 # noqa: E402
+import srcobl                                  # noqa: E402
 
 ID = 'C08'
 LEAN_MODULES = ['Yaql.Props.C08', 'Yaql.Props.C08Gen', 'Yaql.Props.C08EvalMono', 'Yaql.Props.C08EvalOff', 'Yaql.Props.C08Eval',
-                'Yaql.Props.C08Entry']
+                'Yaql.Props.C08Entry'] + \
+    srcobl.modules('C08')      # Props/SrcLimits, SrcRepeat: limit_iterable / limit_memory_usage / list_by_int = current source
 REQUIRED_THEOREMS = ['Yaql.Props.C08.' + n for n in (
     'limit_pulls', 'limit_prefix', 'limit_endless_raises', 'unlimited_never_raises', 'limit_sized',
     'finalize_bounded', 'finalize_refuses', 'repeat_estimate_safe', 'repeat_nonpositive', 'repeat_estimate_safe_str',
@@ -43,7 +45,7 @@ REQUIRED_THEOREMS = ['Yaql.Props.C08.' + n for n in (
             'evalL_off', 'runL_off', 'evalL_rel', 'runL_rel', 'evalL_refines', 'runL_refines', 'limits_monotone',
             'limits_monotone_error', 'new_outcomes', 'quota_flow_eval', 'quota_flow_eval_bound', 'quota_refuses', 'quota_flow_let',
             'quota_flow_ucall', 'quota_flow_receiver', 'limit_flow_iter', 'limit_sized_refuses', 'limitLazy_run',
-            'limit_flow_result')]
+            'limit_flow_result')] + srcobl.theorems('C08')
 TRUSTED = ['harness/gens/limitfacts.py: classification of parameter types (live `check` with a generator object) and '
            'of syntactic uses (AST walk, helper calls followed two levels); cross-checked by the dynamic sweep',
            'harness/gens/sizes.py: sys.getsizeof constants of the running CPython, linear shape verified on samples',
@@ -70,7 +72,9 @@ KNOWN_FD = 'frozendict-unmeasured'
 
 
 def generate():
-    return pyfacts.run(['Sizes', 'LimitFacts', 'EvalSizes'])
+    info = dict(pyfacts.run(['Sizes', 'LimitFacts', 'EvalSizes']))
+    info.update(srcobl.generate('C08'))       # re-translate utils.limit_* and the repetition operators
+    return info
 
 
 # =============================================================================== worker side
@@ -1122,6 +1126,9 @@ def run(env, res):
     if env['replay']:
         rp = json.load(open(env['replay']))
         c = rp['case']
+        if 'src_target' in (c or {}):
+            srcobl.differential(env, res, 'C08')
+            return res
         if c.get('part') == 'V':
             from props import c08eval
             c08eval.replay(env, res, c)
@@ -1144,6 +1151,8 @@ def run(env, res):
         res.extra['histogram'] = hist
         return res
 
+    # ---- source-level differential: utils.limit_iterable / limit_memory_usage / list_by_int vs translation vs model
+    srcobl.differential(env, res, 'C08')
     # ---- V: whole programs under both limits against the instrumented evaluator model (own pool, runs meanwhile)
     from props import c08eval
     vhandle = c08eval.start(env)
